@@ -25,7 +25,8 @@ REQUIRED_THEOREMS = [
     'C15_population_law_gaussian', 'C15_population_law_lognormal', 'C15_population_two_stage',
     'C15_posterior_joint', 'C15_posterior_kept_draws', 'C15_posterior_joint_counterexample', 'C15_history_independent',
     'C15_history_cache_counterexample', 'C15_pam_weights',
-    'C15_table_labels', 'C15_table_labels_pam', 'C15_times_ascending', 'C15_nids', 'C15_nids_counterexample']
+    'C15_table_labels', 'C15_table_labels_pam', 'C15_times_ascending', 'C15_nids', 'C15_nids_counterexample',
+    'C15_prior_inner_seed', 'C15_prior_own_seed_per_sample']
 RULE = ('PredictiveModel, PopulationPredictiveModel (elementary / covariate-wrapped / composed population models, '
         'centred and non-centred), Prior-, Posterior- and PAM predictive models over individual- and '
         'population-level models; 1-3 outputs with mixed error models on a toy mechanistic model with '
@@ -34,7 +35,8 @@ RULE = ('PredictiveModel, PopulationPredictiveModel (elementary / covariate-wrap
         'orders; sample sizes equal to and different from the stored n_ids; dosing regimens and covariates; '
         'sequences of 2-3 calls on one PosteriorPredictiveModel / PAMPredictiveModel object for different individuals, '
         'sample sizes, time vectors and seeds, each checked completely, and a later call on every other predictive object '
-        'compared with a freshly built one; non-trivial = >= 2 outputs or samples; distinct = distinct (class, structure, sizes)')
+        'compared with a freshly built one; integer seeds incl. the boundary values 0, 1, 2 as Python ints, numpy integer '
+        'scalars and bools, in first and later calls; non-trivial = >= 2 outputs or samples; distinct = distinct (class, structure, sizes)')
 ASSUMPTIONS = [
     'primitive samplers are ideal (as in C16); the laws of the transformations are proved for a standard normal '
     'variate (Mathlib gaussianReal); truncated-Gaussian and heterogeneous sub-models enter through C06 / the '
@@ -244,6 +246,29 @@ def gen_times(rng):
     return t
 
 
+SEED_FORMS = {'int': int, 'np.int64': np.int64, 'np.int32': np.int32, 'bool': bool}
+
+
+def gen_seed(rng, hi=1 << 31, force=None):
+    """an integer seed as a caller may hold it: (its integer value — what the model and the replay are told,
+    the object handed to chi, the form of that object).  Boundary values (0 is a valid and falsy integer seed,
+    1, 2) and numpy integer scalars / Python bools (ints with the values 0 and 1) are regular seeds."""
+    s = int(rng.integers(hi))
+    if rng.random() < 0.2:
+        s = int(rng.choice([0, 0, 0, 1, 2]))
+    form = 'int'
+    r = rng.random()
+    if r < 0.3:
+        form = 'np.int64' if r < 0.2 else 'np.int32'
+    if s in (0, 1) and rng.random() < 0.25:
+        form = 'bool'
+    if force is not None:
+        s = int(force)
+        if form == 'bool' and s not in (0, 1):
+            form = 'int'
+    return s, SEED_FORMS[form](s), form
+
+
 # ----------------------------------------------------------------------------------------
 # prediction of values from the model's reads
 # ----------------------------------------------------------------------------------------
@@ -331,7 +356,7 @@ def table_from_entries(ctx, kind, outputs, ts, n, entries, counts=None):
 # ----------------------------------------------------------------------------------------
 # A. PredictiveModel
 # ----------------------------------------------------------------------------------------
-def case_predictive(ctx, chi, rng, k):
+def case_predictive(ctx, chi, rng, k, force_seed=None):
     n = int(rng.integers(1, 4))
     spec = gen_spec(rng, n, allow_pop=False)
     times = gen_times(rng)
@@ -344,19 +369,19 @@ def case_predictive(ctx, chi, rng, k):
                        num=int(rng.choice([1, 2, 3])))
         pm.set_dosing_regimen(**regimen)
     params = spec['psi'] + spec['sig']
-    s = int(rng.integers(1 << 31))
+    s, s_obj, s_form = gen_seed(rng, force=force_seed)
     nS = None if rng.random() < 0.15 else n
     n1 = 1 if nS is None else nS
     include = bool(rng.random() < 0.6)
     inp = {'case': k, 'class': 'PredictiveModel', 'spec': spec, 'times': times, 'n': nS, 'seed': s,
-           'regimen': regimen, 'include_regimen': include}
+           'seed_form': s_form, 'regimen': regimen, 'include_regimen': include}
     ctx.case('PredictiveModel/%d-outputs/%s' % (len(spec['kinds']), 'dosed' if dosed else 'plain'),
              nontrivial=('PredictiveModel/%s/%d/%d' % (''.join(spec['kinds']), len(times), n1))
              if len(spec['kinds']) > 1 or n1 > 1 else False, sample=inp)
     times2 = gen_times(rng)
     box = K.ArgBox(parameters=params, times=times, times2=times2)
     K.set_world(WORLD)
-    df = pm.sample(box['parameters'], box['times'], n_samples=nS, seed=s, include_regimen=include)
+    df = pm.sample(box['parameters'], box['times'], n_samples=nS, seed=s_obj, include_regimen=include)
     box.check(ctx, 'C15.arguments_unchanged/PredictiveModel', inp)
     outputs = pm.get_output_names()
     meas, _, doses = canon_rows(df, outputs)
@@ -372,7 +397,7 @@ def case_predictive(ctx, chi, rng, k):
     ctx.spec('C15.predictive_law/PredictiveModel', rows_close(
         meas, table_from_entries(ctx, 'predictive', outputs, ts, n1, ent_py)), inp)
     # array form agrees with the table
-    arr = K.array_entries(pm.sample(box['parameters'], box['times'], n_samples=nS, seed=s, return_df=False))
+    arr = K.array_entries(pm.sample(box['parameters'], box['times'], n_samples=nS, seed=s_obj, return_df=False))
     box.check(ctx, 'C15.arguments_unchanged/PredictiveModel', inp)
     ctx.spec('C15.array_equals_table/PredictiveModel',
              rows_close(meas, table_from_entries(ctx, 'predictive', outputs, ts, n1, arr)), inp)
@@ -391,10 +416,11 @@ def case_predictive(ctx, chi, rng, k):
     fresh, _, _, _ = build(chi, spec, dosed=dosed)
     if dosed:
         fresh.set_dosing_regimen(**regimen)
-    a2 = {'times': times2, 'n': int(rng.integers(1, 4)), 'seed': int(rng.integers(1 << 31)),
+    s2, s2_obj, s2_form = gen_seed(rng)
+    a2 = {'times': times2, 'n': int(rng.integers(1, 4)), 'seed': s2, 'seed_form': s2_form,
           'include_regimen': bool(rng.random() < 0.6)}
     history_independent(ctx, 'C15.history_independent/PredictiveModel', pm, fresh,
-                        lambda o, b: o.sample(b['parameters'], b['times2'], n_samples=a2['n'], seed=a2['seed'],
+                        lambda o, b: o.sample(b['parameters'], b['times2'], n_samples=a2['n'], seed=s2_obj,
                                               include_regimen=a2['include_regimen']), outputs, inp, a2, box)
 
 
@@ -406,7 +432,7 @@ def pop_params_of_unit(ctx, spec, n, gen_wire, world, rp, python=False):
     return (lambda u: patient_vector(ctx, spec['pop'], spec['theta'], reads, u, rp, python)), reads, mp
 
 
-def case_population(ctx, chi, rng, k):
+def case_population(ctx, chi, rng, k, force_seed=None):
     n = int(rng.integers(1, 5))
     spec = gen_spec(rng, n, allow_pop=True, allow_hetero=True)
     if spec['type'] != 'pop':
@@ -428,10 +454,10 @@ def case_population(ctx, chi, rng, k):
     if dosed:
         ppm.set_dosing_regimen(dose=2.0, start=1.0, duration=0.5, period=2.0, num=3)
     cov = c16.pop_covariates(rng, spec['pop'], n)
-    s = int(rng.integers(1 << 31))
+    s, s_obj, s_form = gen_seed(rng, force=force_seed)
     include = bool(rng.random() < 0.5)
     inp = {'case': k, 'class': 'PopulationPredictiveModel', 'spec': spec, 'times': times, 'n': n, 'seed': s,
-           'stored_n_ids': stored, 'cov': cov, 'include_regimen': include}
+           'seed_form': s_form, 'stored_n_ids': stored, 'cov': cov, 'include_regimen': include}
     cls = '+'.join(('cov:' if x.get('cov') else '') + x['elem'] + ('' if x.get('centered', True) else '/nc')
                    for x in spec['pop']['subs'])
     ctx.case('PopulationPredictiveModel/' + cls, nontrivial='PopulationPredictiveModel/%s/%d' % (cls, n), sample=inp)
@@ -441,7 +467,7 @@ def case_population(ctx, chi, rng, k):
     K.set_world(WORLD)
     pm.seen = []
     try:
-        df = ppm.sample(box['parameters'], box['times'], n_samples=n, seed=s, covariates=box['covariates'],
+        df = ppm.sample(box['parameters'], box['times'], n_samples=n, seed=s_obj, covariates=box['covariates'],
                         include_regimen=include)
     except Exception as e:  # noqa
         ctx.spec('C15.sample_size/PopulationPredictiveModel', False, inp, {'raised': repr(e)[:200]})
@@ -498,10 +524,11 @@ def case_population(ctx, chi, rng, k):
     fpop.set_n_ids(stored)
     if dosed:
         fresh.set_dosing_regimen(dose=2.0, start=1.0, duration=0.5, period=2.0, num=3)
-    a2 = {'times': times2, 'n': n2, 'seed': int(rng.integers(1 << 31)), 'cov': cov2,
+    s2, s2_obj, s2_form = gen_seed(rng)
+    a2 = {'times': times2, 'n': n2, 'seed': s2, 'seed_form': s2_form, 'cov': cov2,
           'include_regimen': bool(rng.random() < 0.5)}
     history_independent(ctx, 'C15.history_independent/PopulationPredictiveModel', ppm, fresh,
-                        lambda o, b: o.sample(b['parameters'], b['times2'], n_samples=a2['n'], seed=a2['seed'],
+                        lambda o, b: o.sample(b['parameters'], b['times2'], n_samples=a2['n'], seed=s2_obj,
                                               covariates=b['covariates2'], include_regimen=a2['include_regimen']),
                         outputs, inp, a2, box, cov_names)
 
@@ -549,8 +576,55 @@ def inner_predict(ctx, spec, mech, ts, cells, rp, n, unit_params, gen_of_unit, w
     return predict_entries(ctx, spec, mech, ts, cells, rp, lambda u: vec[u], python)
 
 
-def case_prior(ctx, chi, rng, k):
+def standardised_noise(kind, sig, ybar, v):
+    """the standard-normal variate behind a measurement, where the error model's sampler is invertible"""
+    if kind == 'G':
+        return (v - ybar) / sig[0]
+    if kind == 'M':
+        return (v - ybar) / (ybar * sig[0])
+    if kind == 'LN':
+        return (math.log(v / ybar) + sig[0] ** 2 / 2) / sig[0]
+    return None
+
+
+def own_noise_per_sample(ctx, tag, spec, mech, ts, outputs, meas, params, n, inp):
+    """every sample ID is one draw of the error model around the mechanistic output at ITS parameter set: the
+    measurement noise (standardised residuals about the ID's own curve, from the parameter sets the prior gives
+    under this seed) of two sample IDs is never the same vector.  Individual-level wrapped models, outputs with
+    an invertible sampler (one variate per value)."""
+    if spec['type'] != 'indiv' or n < 2:
+        return
+    n_mech, kinds = spec['n_mech'], spec['kinds']
+    z = {}
+    try:
+        for u in range(n):
+            p = params[u]
+            yb = mech.simulate(p[:n_mech], ts)
+            sl = sig_slices(kinds, p[n_mech:])
+            vals = {}
+            for (_id, t, ob, v) in meas:
+                if _id == u + 1:
+                    vals.setdefault(outputs.index(ob), []).append(v)     # meas is sorted by (id, time, ...)
+            vec = []
+            for o, kind in enumerate(kinds):
+                if kind == 'CM' or len(vals.get(o, [])) != len(ts):
+                    continue
+                vec += [standardised_noise(kind, sl[o], float(yb[o][j]), float(v)) for j, v in enumerate(vals[o])]
+            z[u] = vec
+    except (ValueError, ZeroDivisionError, KeyError, IndexError):
+        return                  # not a draw around this curve at all: the law spec reports it
+    if not z or not z[0]:
+        return
+    same = [(a + 1, b + 1) for a in range(n) for b in range(a + 1, n)
+            if len(z[a]) == len(z[b]) and np.allclose(z[a], z[b], rtol=1e-9, atol=1e-9)]
+    ctx.spec(tag, not same, inp, {'sample IDs with the same measurement noise': same[:6],
+                                  'standardised noise': [[round(x, 6) for x in z[u][:4]] for u in sorted(z)[:3]]})
+
+
+def case_prior(ctx, chi, rng, k, force_seed=None):
     n = int(rng.integers(1, 4))
+    if force_seed is not None:
+        n = max(n, 2)          # several sample IDs under the boundary seed
     spec = gen_spec(rng, n, allow_pop=True, allow_hetero=True, allow_trunc=False, allow_cov=False)
     if spec['type'] == 'pop':
         for sub in spec['pop']['subs']:
@@ -566,15 +640,15 @@ def case_prior(ctx, chi, rng, k):
     prm = chi.PriorPredictiveModel(model, prior)
     if dosed:
         prm.set_dosing_regimen(**REGIMEN)
-    s = int(rng.integers(1 << 30))
+    s, s_obj, s_form = gen_seed(rng, hi=1 << 30, force=force_seed)
     inp = {'case': k, 'class': 'PriorPredictiveModel', 'spec': spec, 'times': times, 'n': n, 'seed': s,
-           'dosed': dosed, 'include_regimen': include}
+           'seed_form': s_form, 'dosed': dosed, 'include_regimen': include}
     ctx.case('PriorPredictiveModel/%s' % spec['type'], nontrivial='Prior/%s/%d/%d' % (spec['type'], len(spec['kinds']), n),
              sample=inp)
     times2 = gen_times(rng)
     box = K.ArgBox(times=times, times2=times2)
     K.set_world(WORLD)
-    df = prm.sample(box['times'], n_samples=n, seed=s, include_regimen=include)
+    df = prm.sample(box['times'], n_samples=n, seed=s_obj, include_regimen=include)
     box.check(ctx, 'C15.arguments_unchanged/PriorPredictiveModel', inp)
     outputs = model.get_output_names()
     meas, _, doses = canon_rows(df, outputs)
@@ -607,15 +681,17 @@ def case_prior(ctx, chi, rng, k):
     ctx.spec('C15.prior_draws', core.close([rows[u] for u in sorted(rows)], direct[:len(rows)]), inp)
     ctx.agree('C15.table/PriorPredictiveModel', meas, preds[0], inp)
     ctx.spec('C15.prior_predictive_law', rows_close(meas, preds[1]), inp)
+    own_noise_per_sample(ctx, 'C15.prior_predictive_law/own_noise_per_sample', spec, mech, ts, outputs, meas, direct, n, inp)
     # a later call on the same object
     fmodel, _, _, _ = build(chi, spec, dosed=dosed)
     fresh = chi.PriorPredictiveModel(fmodel, prior)
     if dosed:
         fresh.set_dosing_regimen(**REGIMEN)
-    a2 = {'times': times2, 'n': int(rng.integers(1, 4)), 'seed': int(rng.integers(1 << 30)),
+    s2, s2_obj, s2_form = gen_seed(rng, hi=1 << 30)
+    a2 = {'times': times2, 'n': int(rng.integers(1, 4)), 'seed': s2, 'seed_form': s2_form,
           'include_regimen': bool(rng.random() < 0.6)}
     history_independent(ctx, 'C15.history_independent/PriorPredictiveModel', prm, fresh,
-                        lambda o, b: o.sample(b['times2'], n_samples=a2['n'], seed=a2['seed'],
+                        lambda o, b: o.sample(b['times2'], n_samples=a2['n'], seed=s2_obj,
                                               include_regimen=a2['include_regimen']), outputs, inp, a2, box)
 
 
@@ -653,7 +729,7 @@ def joint_rows(ds, names, ids, individual):
     return rows
 
 
-def case_posterior(ctx, chi, rng, k, layout=None):
+def case_posterior(ctx, chi, rng, k, layout=None, force_seed=None):
     n = int(rng.integers(1, 5))
     spec = gen_spec(rng, n, allow_pop=True, allow_hetero=True, allow_trunc=True, allow_cov=False)
     times = gen_times(rng)
@@ -704,16 +780,17 @@ def case_posterior(ctx, chi, rng, k, layout=None):
     ctx.case('PosteriorPredictiveModel/%s/%s' % (spec['type'], layout),
              nontrivial='Posterior/%s/%s/%dx%d/%s' % (spec['type'], layout, n_chains, n_draws, pad), sample=base_inp)
 
-    def one_call(individual, times, n, s, include, history):
+    def one_call(individual, times, n, seed3, include, history):
         """one call of `sample` on the (same) object, checked completely: a result may depend on the arguments of
         this call only, not on what the object was asked before"""
+        s, s_obj, s_form = seed3
         ind_idx = 0 if individual is None else ids.index(individual)
-        inp = dict(base_inp, times=times, n=n, seed=s, individual=individual, include_regimen=include,
+        inp = dict(base_inp, times=times, n=n, seed=s, seed_form=s_form, individual=individual, include_regimen=include,
                    earlier_calls_on_this_object=history)
         K.set_world(WORLD)
         pm.seen = []
         box = K.ArgBox(times=times)
-        df = ppm.sample(box['times'], n_samples=n, individual=individual, seed=s, include_regimen=include)
+        df = ppm.sample(box['times'], n_samples=n, individual=individual, seed=s_obj, include_regimen=include)
         box.check(ctx, 'C15.arguments_unchanged/PosteriorPredictiveModel', inp)
         outputs = model.get_output_names()
         meas, _, doses = canon_rows(df, outputs)
@@ -775,9 +852,9 @@ def case_posterior(ctx, chi, rng, k, layout=None):
     individual = None if ids is None or rng.random() < 0.3 else ids[int(rng.integers(len(ids)))]
     history = []
     for call_no in range(1 + int(rng.integers(1, 3))):
-        s = int(rng.integers(1 << 31))
-        one_call(individual, times, n, s, include, list(history))
-        history.append({'individual': individual, 'n': n, 'times': times, 'seed': s})
+        seed3 = gen_seed(rng, force=force_seed if call_no == 0 else None)
+        one_call(individual, times, n, seed3, include, list(history))
+        history.append({'individual': individual, 'n': n, 'times': times, 'seed': seed3[0], 'seed_form': seed3[2]})
         if ids is not None and len(ids) > 1:
             others = [i_ for i_ in ids if i_ != (individual if individual is not None else ids[0])]
             individual = others[int(rng.integers(len(others)))] if rng.random() < 0.8 else None
@@ -791,7 +868,7 @@ def case_posterior(ctx, chi, rng, k, layout=None):
 # ----------------------------------------------------------------------------------------
 # E. PAMPredictiveModel
 # ----------------------------------------------------------------------------------------
-def case_pam(ctx, chi, rng, k):
+def case_pam(ctx, chi, rng, k, force_seed=None):
     n = int(rng.integers(2, 8))
     spec = gen_spec(rng, n, allow_pop=False)
     times = gen_times(rng)
@@ -818,16 +895,17 @@ def case_pam(ctx, chi, rng, k):
     ctx.case('PAMPredictiveModel/%d-models%s' % (n_models, '/dosed' if dosed else ''),
              nontrivial='PAM/%d/%d' % (n_models, n), sample={'case': k, 'spec': spec, 'weights': weights})
 
-    def one_call(individual, times, n, s, world, history, include=False):
+    def one_call(individual, times, n, seed3, world, history, include=False):
         """one call on the (same) averaged model and the same posterior predictive models, checked completely"""
+        s, s_obj, s_form = seed3
         ind_idx = 0 if individual is None else ['a', 'b'].index(individual)
         inp = {'case': k, 'class': 'PAMPredictiveModel', 'spec': spec, 'times': times, 'n': n, 'seed': s,
-               'weights': weights, 'world': list(world), 'individual': individual, 'dosed': dosed,
+               'seed_form': s_form, 'weights': weights, 'world': list(world), 'individual': individual, 'dosed': dosed,
                'include_regimen': include, 'earlier_calls_on_this_object': history}
         K.set_world(world)
         pm.seen = []
         box = K.ArgBox(times=times)
-        df = pam.sample(box['times'], n_samples=n, individual=individual, seed=s, include_regimen=include)
+        df = pam.sample(box['times'], n_samples=n, individual=individual, seed=s_obj, include_regimen=include)
         box.check(ctx, 'C15.arguments_unchanged/PAMPredictiveModel', inp)
         outputs = model.get_output_names()
         meas, _, doses = canon_rows(df, outputs)
@@ -872,11 +950,12 @@ def case_pam(ctx, chi, rng, k):
     individual = [None, 'a', 'b'][int(rng.integers(3))]
     history = []
     for call_no in range(1 + int(rng.integers(1, 3))):
-        s = int(rng.integers(1 << 31))
+        seed3 = gen_seed(rng, force=force_seed if call_no == 0 else None)
         world = ('LS', int(rng.integers(1 << 30)), 0)
         include = bool(rng.random() < 0.6)
-        one_call(individual, times, n, s, world, list(history), include)
-        history.append({'individual': individual, 'n': n, 'times': times, 'seed': s, 'include_regimen': include})
+        one_call(individual, times, n, seed3, world, list(history), include)
+        history.append({'individual': individual, 'n': n, 'times': times, 'seed': seed3[0], 'seed_form': seed3[2],
+                        'include_regimen': include})
         individual = 'b' if individual in (None, 'a') else [None, 'a'][int(rng.integers(2))]
         if rng.random() < 0.5:
             n = int(rng.integers(2, 8))
@@ -958,10 +1037,17 @@ CASES = [case_predictive, case_population, case_prior, case_posterior, case_pam,
          case_population_broadcast_covariates]
 
 
+SEED0_CASES = [case_predictive, case_population, case_prior, case_posterior, case_pam]
+
+
 def corpus(ctx, chi):
     # input class of C15_posterior_joint_counterexample (pre-fix code): variables with different dimension orders
     for j in range(2):
         ctx.guard(case_posterior, ctx, chi, ctx.sub_rng(900000 + j), 900000 + j, layout='mixed')
+    # the boundary seed 0 (a valid integer seed that is falsy) on each of the five predictive classes
+    for j in range(2 * len(SEED0_CASES)):
+        k = 910000 + j
+        ctx.guard(SEED0_CASES[j % len(SEED0_CASES)], ctx, chi, ctx.sub_rng(k), k, force_seed=0)
 
 
 def run(ctx):
@@ -983,7 +1069,9 @@ def replay(ctx, data):
     inp = data['failing']['input']
     k = int(inp['case'])
     ctx.seed = data.get('seed', ctx.seed)
-    if k >= 900000:
+    if k >= 910000:
+        SEED0_CASES[(k - 910000) % len(SEED0_CASES)](ctx, chi, ctx.sub_rng(k), k, force_seed=0)
+    elif k >= 900000:
         case_posterior(ctx, chi, ctx.sub_rng(k), k, layout='mixed')
     else:
         CASES[k % len(CASES)](ctx, chi, ctx.sub_rng(k), k)
